@@ -23,7 +23,7 @@ ASSUMPTIONS = [
     "address registers are modified only through their full-width name, and only by constant add/sub/inc/dec, copies or clobbers "
     "(DESIGN.md section 2, R-deps); the write-back of a pre/post-indexed store itself is part of the tracked changes (judged through loads "
     "that use a copy of the base taken right after the store - a load through the base itself has a register dependency on the "
-    "store anyway); once the base of a write-back store is written again the real search gives up: those pairs are don't-care",
+    "store anyway)",
     "edge weight: store latency (with or without its load stage for read-modify-write forms) + store_to_load_forward_latency (default 0)",
 ]
 SHARD_TIMEOUT = {"quick": 600, "thorough": 3600}
